@@ -93,8 +93,9 @@ def run_cases(binp, S, cases, flavour="default", shim=True, timeout=900):
     returns list of dict(case, rec, send_obs, recv_obs)"""
     lines = []
     for c in cases:
-        lines.append("id=%d len=%d nsend=%d nrecv=%d nshm=%d faults=%s level=%s" % (
-            c["id"], c["len"], c.get("nsend", 0), c.get("nrecv", 0), c.get("nshm", 0), c.get("faults", ""), c.get("level", "platform")))
+        lines.append("id=%d len=%d nsend=%d nrecv=%d nshm=%d faults=%s level=%s%s" % (
+            c["id"], c["len"], c.get("nsend", 0), c.get("nrecv", 0), c.get("nshm", 0), c.get("faults", ""), c.get("level", "platform"),
+            " prefail=1" if c.get("prefail") else ""))
     env = {}
     if S is not None:
         env["VSHIM_SNDBUF"] = S
@@ -135,6 +136,8 @@ def oracle(chk, item, require_ok):
     if item["crashed"]:
         return "harness process died or produced no record: %s" % item["stderr"][-300:]
     rv = rec["recv"]
+    if rec.get("prefail_failed") is False:
+        return "a send whose serialisation fails reported success"
     if rv.get("hang"):
         return "receiver blocked for ever (watchdog) after send=%s" % rec["send"]
     if rec["send"] == "Ok":
